@@ -226,10 +226,11 @@ func runC11(r *mc.Run) {
 	cfgs := c11Configs(r.Thorough())
 	completed := depth
 	for _, c := range cfgs {
-		e := &engb.Explorer{Run: r, NewRoot: c.newRoot, Menu: c11Menu(c, r.Thorough()), Monitor: c11Monitor(r, c), Depth: depth, WantMid: true}
+		e := &engb.Explorer{Run: r, NewRoot: c.newRoot, Menu: c11Menu(c, r.Thorough()), Monitor: c11Monitor(r, c), Depth: depth, ConformanceDepth: 2, WantMid: true}
 		if err := e.Explore(); err != nil {
 			panic(err)
 		}
+		runConformance(r, c, e)
 		if e.Completed < completed {
 			completed = e.Completed
 		}
